@@ -178,6 +178,7 @@ def trigger_init(case, x):
     return name if name != 'bkpt' else 'bkpt-' + val[0]
 
 
+@_bsp.guarded(lambda bad: (bad, None, np.zeros(1), 'bad:check-exception'))
 def check_knots(case):
     """-> (bad, sset_or_None, x, outcome)"""
     bad = []
@@ -247,6 +248,7 @@ def knot_trigger(t, k, pts_bad):
     return 'between-knots'
 
 
+@_bsp.guarded(lambda bad: (bad, np.zeros(1)))
 def check_value(s, t, k, coef, pts, order, tables=None):
     """value() at pts[order] against the reference; -> list of (sig, msg)."""
     bad = []
@@ -290,6 +292,7 @@ def check_value(s, t, k, coef, pts, order, tables=None):
     return bad, lo
 
 
+@_bsp.guarded(lambda bad: bad)
 def check_basis(s, t, k, pts):
     bad = []
     nc = len(t) - k
